@@ -1225,6 +1225,17 @@ package bpmn
 //@     invariant !oncedone(mu(p.monitorOnce)) ==> held(mu(p.complete)) == 0 && count(Spawn, code("(*Process).ceaseFlowMonitor$1")) == old(count(Spawn, code("(*Process).ceaseFlowMonitor$1")))
 //@     invariant count(Spawn, code("(*Process).ceaseFlowMonitor$1")) <= old(count(Spawn, code("(*Process).ceaseFlowMonitor$1"))) + 1
 
+// Triggering every intermediate throw event (the other way to start an instance).
+//@ func (*Process).ThrowAll
+//@   prop C02
+//@   flag entrylocks
+//@   flag lockeffect p.complete
+//@   requires !oncedone(mu(p.monitorOnce)) ==> held(mu(p.complete)) == 0
+//@   ensures startFrame()
+//@   loop 1 range *p.element.IntermediateThrowEvents()
+//@     invariant startFrame()
+//@     invariant !oncedone(mu(p.monitorOnce)) ==> held(mu(p.complete)) == 0
+
 // The completion monitor is created holding the completion lock (so that waiters block until it is done) and is
 // the literal below.
 //@ func (*Process).ceaseFlowMonitor
@@ -1262,3 +1273,31 @@ package bpmn
 //@   requires !closed(waitIsOver)
 //@   ensures [closes-only-after-the-wait-returned] evlen == old(evlen) + 2 && isWgWait(ev(old(evlen))) && evch(ev(old(evlen))) == mu(p.flowWaitGroup) &&
 //@             isClose(ev(old(evlen) + 1)) && evch(ev(old(evlen) + 1)) == waitIsOver
+
+// ---------------------------------------------------------------------------------------------------------------
+// subprocess.go (C12)
+
+// The inner completion monitor of an embedded sub-process: it subscribes to — and later announces the end of the inner
+// flow on — the tracer it is given.
+//@ func (*subProcess).ceaseFlowMonitor
+//@   prop C12
+//@   flag entrylocks
+//@   flag lockeffect sp.complete
+//@   requires held(mu(sp.complete)) == 0
+//@   emits Call(code("tracing|ITracer.Subscribe"), tracer)
+//@   ensures held(mu(sp.complete)) == 2 && fncode(result) == code("(*subProcess).ceaseFlowMonitor$1")
+
+// First activation: the inner completion monitor and the activation loop are started once.  The activation loop waits
+// for the inner cease-flow trace on the sub-process's own (inner) tracer, so that is where the monitor must listen
+// and announce it — otherwise the parent's token never continues past the sub-process.
+//@ func (*subProcess).NextAction
+//@   prop C12
+//@   flag entrylocks
+//@   flag lockeffect sp.complete
+//@   requires old(sp.active) == 0 ==> held(mu(sp.complete)) == 0
+//@   ensures [inner-completion-is-watched-where-the-activation-listens] forall p int :: old(evlen) <= p && p < evlen && isCall(ev(p)) &&
+//@             evch(ev(p)) == code("tracing|ITracer.Subscribe") ==> evval(ev(p)) == sp.subTracer
+//@   ensures [started-at-most-once] count(Spawn, code("(*subProcess).run")) <= old(count(Spawn, code("(*subProcess).run"))) + 1 &&
+//@             (count(Spawn, code("(*subProcess).run")) == old(count(Spawn, code("(*subProcess).run"))) + 1 ==> old(sp.active) == 0)
+//@   ensures [one-request-queued-last] isSend(ev(evlen - 1)) && evch(ev(evlen - 1)) == sp.mch && is(evval(ev(evlen - 1)), nextActionMessage) &&
+//@             evval(ev(evlen - 1)).(nextActionMessage).response == result && chancap(result) == 1
